@@ -500,3 +500,133 @@ def align_compare(a, b, sentence, only_client=None, skip_nsc_av=True):
                 out.append(fail(sentence, xa[k][4], f'operation {i}.{k}: {a.setup} answered {str(xa[k][3])[:160]} / {b.setup} answered {str(xb[k][3])[:160]}'))
                 break
     return out
+
+# --------------------------------------------------------------------------------------------- HTTP: C15 / C16 / C20 / C14
+
+DEFECT_STATUS = {'method': 404, 'route': 404, 'pathid': 404, 'ctype': 400, 'cid': 400, 'emptybody': 400, 'toolarge': 400, 'unlisted': 403}
+
+def http_groups(run):
+    """(group, previous dumps, previous raw) for groups whose operation is a grammar request"""
+    for g, pd, praw, st in iterate(run):
+        if g.meta.get('op') == 'http' and g.ops:
+            yield g, pd, praw
+
+def unchanged(g, pd, praw):
+    bad = []
+    for c, ds in g.dumps.items():
+        if c in pd and pd[c] != ds:
+            bad.append(f'client {c}: {pd[c][:140]} -> {ds[:140]}')
+    if g.raw is not None and praw is not None and g.raw != praw:
+        bad.append('raw tables changed')
+    return bad
+
+def o_c15(run):
+    out = []
+    for g, pd, praw in http_groups(run):
+        r = g.ops[0]
+        ih = r.i_out[1] if isinstance(r.i_out, tuple) and r.i_out[0] == 'http' else None
+        if ih is None:
+            continue
+        st = ih['status']
+        defects = [] if g.meta.get('defects', '-') == '-' else g.meta['defects'].split('+')
+        if st == 'panic' or (isinstance(st, int) and st >= 500):
+            out.append(fail('C15: no request makes the server fail with a 5xx or crash', r, f'status {st} for defects {defects} form {g.meta.get("form")}'))
+            continue
+        if defects:
+            allowed = {DEFECT_STATUS[d] for d in defects}
+            if st not in allowed or not (400 <= st < 500):
+                out.append(fail('C15: a malformed or oversized request gets a 4xx response', r, f'status {st}, defects {defects} (allowed {sorted(allowed)}), form {g.meta.get("form")}'))
+            bad = unchanged(g, pd, praw)
+            if bad:
+                out.append(fail('C15: a refused request changes no stored state', r, '; '.join(bad)[:400]))
+            if ih.get('txns') not in (None, '0') and 'unlisted' in defects:
+                pass
+        else:
+            form = g.meta.get('form', '')
+            if 'body=limit' in form and st == 400:
+                out.append(fail('C15: bodies up to and including the limit are accepted', r, f'status 400 for {form}'))
+            if st not in (200, 409, 404, 410):
+                out.append(fail('C15: a well-formed request is served', r, f'status {st} for a request without defects, form {form}'))
+    return out
+
+def o_c16(run):
+    out = []
+    allow = run.kv.get('allow', 'none')
+    for g, pd, praw in http_groups(run):
+        r = g.ops[0]
+        ih = r.i_out[1] if isinstance(r.i_out, tuple) and r.i_out[0] == 'http' else None
+        if ih is None:
+            continue
+        st = ih['status']
+        defects = [] if g.meta.get('defects', '-') == '-' else g.meta['defects'].split('+')
+        route = g.meta.get('route')
+        if 'unlisted' in defects and route in ('av', 'gcv', 'as', 'gs'):
+            allowed = {DEFECT_STATUS[d] for d in defects}
+            if defects == ['unlisted'] and st != 403:
+                out.append(fail('C16: every protocol request carrying an unlisted client id is refused with 403', r, f'status {st} on route {route} with allow-list {allow[:80]}'))
+            elif st not in allowed:
+                out.append(fail('C16: a request with an unlisted client id is refused', r, f'status {st}, defects {defects}'))
+            if ih.get('txns') not in (None, '0'):
+                out.append(fail('C16: ... without reading or changing any stored state', r, f'{ih.get("txns")} storage transactions were opened'))
+            bad = unchanged(g, pd, praw)
+            if bad:
+                out.append(fail('C16: ... without changing any stored state', r, '; '.join(bad)[:400]))
+        if not defects and route in ('av', 'gcv', 'as', 'gs') and st == 403:
+            out.append(fail('C16: listed clients (and every well-formed id when there is no list) are served', r, f'403 with allow-list {allow[:80]} form {g.meta.get("form")}'))
+    return out
+
+def o_c20(run):
+    out = []
+    for r in run.recs:
+        if r.ws[0] != 'http':
+            continue
+        ih = r.i_out[1] if isinstance(r.i_out, tuple) and r.i_out[0] == 'http' else parse_http_obs(r.impl)
+        if ih is None or ih.get('status') == 'panic':
+            continue
+        cc = unhex(ih.get('cc', '-'))
+        if cc is None or 'no-store' not in cc.lower():
+            out.append(fail('C20: every HTTP response carries a Cache-Control header forbidding storage', r, f'status {ih.get("status")} cache-control={cc!r}'))
+    return out
+
+HS_CT = 'application/vnd.taskchampion.history-segment'
+SNAP_CT = 'application/vnd.taskchampion.snapshot'
+
+def o_c14_table(run):
+    """presence/absence of headers, content type and body per outcome, for well-formed protocol requests over HTTP"""
+    out = []
+    if run.entry != 'http':
+        return out
+    for r in run.recs:
+        if r.ws[0] != 'http' or r.op not in ('av', 'gcv', 'as', 'gs'):
+            continue
+        ih = parse_http_obs(r.impl)
+        if ih is None or not isinstance(ih.get('status'), int):
+            continue
+        st = ih['status']
+        vid, pvid, sr, ct, body = ih.get('vid', '-'), ih.get('pvid', '-'), ih.get('sr', '-'), unhex(ih.get('ct', '-')), ih.get('body', '-')
+        bad = None
+        if r.op == 'av':
+            if st == 200:
+                if vid == '-' or pvid != '-' or sr not in ('-', 'low', 'high'): bad = 'accepted: X-Version-Id present, X-Parent-Version-Id absent, X-Snapshot-Request absent or urgency=low|high'
+            elif st == 409:
+                if pvid == '-' or vid != '-' or sr != '-': bad = 'conflict: X-Parent-Version-Id present, nothing else'
+            else: bad = f'unexpected status {st}'
+        elif r.op == 'gcv':
+            if st == 200:
+                if vid == '-' or pvid == '-' or ct != HS_CT or body == '-' or sr != '-': bad = 'found: both id headers, history-segment content type, payload'
+            elif st in (404, 410):
+                if vid != '-' or pvid != '-' or sr != '-': bad = 'not-found/gone: no protocol headers'
+            else: bad = f'unexpected status {st}'
+        elif r.op == 'as':
+            if st == 200:
+                if vid != '-' or pvid != '-' or sr != '-': bad = 'AddSnapshot 200: no protocol headers'
+            elif st != 404: bad = f'unexpected status {st}'
+        elif r.op == 'gs':
+            if st == 200:
+                if vid == '-' or ct != SNAP_CT or body == '-' or pvid != '-' or sr != '-': bad = 'GetSnapshot 200: X-Version-Id, snapshot content type, payload'
+            elif st == 404:
+                if vid != '-' or pvid != '-': bad = '404: no protocol headers'
+            else: bad = f'unexpected status {st}'
+        if bad:
+            out.append(fail('C14: the HTTP status, headers and body carry precisely the protocol outcome', r, f'{bad}; got status={st} vid={vid} pvid={pvid} sr={sr} ct={ct}'))
+    return out
